@@ -3,5 +3,6 @@ import QeepProps.C13z
 import QeepProps.C13w
 import QeepProps.C13u
 import QeepProps.C13t
+import QeepProps.C13s
 /-! C13 — all property theorems: `C13`, `C13x` (local backward passes of MSE / BCE / CE) and `C13z` (MSE end to end: the
-gradient `BackPropagate` stores on the prediction). `C13w` (`mse_backprop_leaf`: for a leaf prediction `BackPropagate` succeeds, unconditionally, and stores `2(p−t)/n`). `C13v` (the clip segment inside any walk: `clip_in_walk`; CE end to end: `ce_backprop_full`, `ce_backprop`, `ce_backprop_el`) and `C13u` (BCE end to end over all thirty tensors of the loss graph: `bce_backprop`, `bce_backprop_el`; `grad_three`). `C13t`: an activation under a loss — Sigmoid → BCE: `sigmoid_bce_backprop(_el)` (the logistic gradient `(σ(x) − t̂)/n` on the real walk over thirty-seven tensors) and `sigmoid_bce_backprop_leaf` (unconditional on a leaf input). -/
+gradient `BackPropagate` stores on the prediction). `C13w` (`mse_backprop_leaf`: for a leaf prediction `BackPropagate` succeeds, unconditionally, and stores `2(p−t)/n`). `C13v` (the clip segment inside any walk: `clip_in_walk`; CE end to end: `ce_backprop_full`, `ce_backprop`, `ce_backprop_el`) and `C13u` (BCE end to end over all thirty tensors of the loss graph: `bce_backprop`, `bce_backprop_el`; `grad_three`). `C13t`: an activation under a loss — Sigmoid → BCE: `sigmoid_bce_backprop(_el)` (the logistic gradient `(σ(x) − t̂)/n` on the real walk over thirty-seven tensors) and `sigmoid_bce_backprop_leaf` (unconditional on a leaf input). `C13s`: `logistic_loss_deriv` — the logistic gradient `(σ(xᵢ) − tᵢ)/n` is the Mathlib partial derivative of the composite loss BCE ∘ Sigmoid with respect to the logit. -/
